@@ -522,6 +522,11 @@ def run(ctx):
     r1_keep_set(Relabel(ctx, 'C06.R7'), DeleteRoles(ctx.corpus))
     r8_session_key_fixed(ctx)
     r10_close_forgets_the_keys(ctx)
+    # a shared-key user's clean keeps what the others' snapshots reference: the listing it judges by is complete
+    from ..report import Relabel as _RL6
+    from .c13 import r2_pagination as _pg6
+
+    _pg6(_RL6(ctx, 'C06.R7'))
     # a shared-key user sees that the others' snapshots exist
     from .c15 import r2b_every_loaded_snapshot_is_listed
 
